@@ -70,3 +70,80 @@ def gen_case(rng, malformed=False, nest=True):
         actions.append([0, [6, []]])
         actions.append([1])
     return [FUEL, bodies, actions]
+
+
+def gen_ties_case(rng):
+    """Many signals over two or three priorities, handlers that enqueue more ties and call the partial
+    batch form from inside handlers (re-queue path)."""
+    prios = rng.choice([[0], [0, 0, 1], [-5, 0], [0, 7, 7], [-20, 0]])
+    nh = 4
+    bodies = [
+        [[9, 3, [[0, 1, rng.choice(prios), []], [0, 2, rng.choice(prios), []]], []]],
+        [[9, 2, [[6, []]], []], [10, 1]],
+        [[10, 2]],
+        [[9, 1, [[0, 3, rng.choice(prios), []]], [[10, 3]]]],
+    ]
+    setup = [0, [8, 1, 0, 1], [8, 2, 1, 2], [8, 3, 2, 3], [8, 1, 3, 4]]
+    if rng.random() < 0.5:
+        setup.append([8, 2, 2, 9])
+    for _ in range(rng.randrange(4, 40)):
+        setup.append([0, rng.choice([1, 2, 3]), rng.choice(prios), []])
+    for _ in range(rng.randrange(0, 4)):
+        setup.append([11, rng.choice([1, 2, 3]), rng.choice(prios), []])
+    acts = [setup]
+    if rng.random() < 0.4:
+        acts.append([0, [6, []]])
+    acts.append([1])
+    return [FUEL, bodies, acts]
+
+
+def gen_nested_case(rng, prop="C03"):
+    """Well-bracketed nesting to depth D: class 10+d opens level d+1; inside each level a worker handler
+    enqueues to sources registered at several levels, waits / drains, then closes its level."""
+    D = rng.randrange(1, 5)
+    bodies = []
+    setup = [0]
+    hid = 0
+    for d in range(D):
+        opener = 10 + d
+        body = []
+        if rng.random() < 0.7:
+            body.append([7, 100 + d])                     # register a source at this level
+        for _ in range(rng.randrange(0, 3)):
+            body.append([0, rng.choice([1, 2]), rng.choice(PRIOS), opt(rng.choice([None, 100, 101, 102, 103]))])
+        # open the next level (or work) on the first invocation only
+        nxt = [4, opener + 1, 0, opt(rng.choice([None, 100 + d]))]
+        body.append([9, 1, [nxt], []])
+        if prop == "C10" and rng.random() < 0.5:
+            body.append([9, 1, [[6, [rng.choice([1, 2])]]], []])
+        if d > 0:
+            body.append([9, 1, [[5]], []] if rng.random() < 0.85 else [5])
+        bodies.append(body)
+        setup.append([8, opener, hid, d])
+        hid += 1
+    # innermost worker (class 10+D): enqueue outward, maybe wait, close
+    inner = [[0, rng.choice([1, 2]), rng.choice(PRIOS), opt(rng.choice([None, 100, 101, 102]))] for _ in range(rng.randrange(0, 4))]
+    if rng.random() < 0.3:
+        inner.append([6, []])
+    if prop == "C09" and rng.random() < 0.5:
+        inner.append(rng.choice([[2], [3], [9, 1, [[2]], []]]))
+    inner.append([5])
+    bodies.append(inner); setup.append([8, 10 + D, hid, 9]); hid += 1
+    # plain workers for classes 1, 2
+    w1 = [[10, 1]] + ([[9, 2, [[0, 2, rng.choice(PRIOS), opt(rng.choice([None, 100, 101]))]], []]] if rng.random() < 0.6 else [])
+    w2 = [[10, 2]] + ([[9, 1, [[1]], []]] if rng.random() < 0.3 else [])
+    bodies += [w1, w2]
+    setup += [[8, 1, hid, 1], [8, 2, hid + 1, 2]]
+    if rng.random() < 0.5:
+        setup.append([8, 1, hid + 1, 7])
+    if rng.random() < 0.5:
+        setup.append([12, 5])
+    setup.append([7, 100])
+    for _ in range(rng.randrange(0, 6)):
+        setup.append([0, rng.choice([1, 2]), rng.choice(PRIOS), opt(rng.choice([None, 100]))])
+    setup.append([0, 10, 0, []])
+    for _ in range(rng.randrange(0, 3)):
+        setup.append([0, rng.choice([1, 2]), rng.choice(PRIOS), opt(rng.choice([None, 100]))])
+    if rng.random() < 0.3:
+        setup.append([11, rng.choice([1, 2]), 0, opt(rng.choice([None, 100, 101]))])
+    return [FUEL, bodies, [setup, [1]]]
